@@ -86,7 +86,7 @@ pub fn make_style(template: &str, obs: &Arc<StdMutex<ObsShared>>, obs_text: &str
     let mut rest = template;
     while let Some(i) = rest.find(|c| c == '{' || c == '}') {
         let tail = &rest[i..];
-        match ["{obs}", "{msg}", "{prefix}", "{pos}", "{len}"].iter().find(|k| tail.starts_with(**k)) {
+        match ["{obs}", "{msg}", "{prefix}", "{pos}", "{len}", "{ ", "{\t"].iter().find(|k| tail.starts_with(**k)) {
             Some(k) => rest = &tail[k.len()..],
             None => return Err("harness: template outside the model-renderable family".into()),
         }
@@ -114,6 +114,8 @@ thread_local! {
 }
 
 pub struct Slot {
+    /// a style taken earlier with pb.style(), with the template / custom-key text it had then
+    pub style_snapshot: Option<(ProgressStyle, String, String)>,
     pub handles: Vec<ProgressBar>,
     pub abs: BarAbs,
     pub obs: Arc<StdMutex<ObsShared>>,
@@ -329,6 +331,7 @@ impl Stage {
             }
         }
         self.bars.push(Slot {
+            style_snapshot: None,
             handles: vec![pb],
             abs,
             obs,
@@ -663,6 +666,22 @@ impl Stage {
                 }
             }
         }
+        let mut snapshot_style: Option<ProgressStyle> = None;
+        if k == "snapshot_style" {
+            let st = pb.style();
+            let (t, o) = (self.bars[b].abs.template.clone(), self.bars[b].abs.obs_text.clone());
+            self.bars[b].style_snapshot = Some((st, t, o));
+        }
+        if k == "set_style_snapshot" {
+            match &self.bars[b].style_snapshot {
+                Some((st, _, _)) => snapshot_style = Some(st.clone()),
+                None => {
+                    res.skipped = true;
+                    self.skipped_ops += 1;
+                    return res;
+                }
+            }
+        }
         let mut drop_these: Vec<ProgressBar> = vec![];
         match k {
             "drop" => {
@@ -726,6 +745,11 @@ impl Stage {
                 }
             }
             "retarget_hidden" => pb.set_draw_target(ProgressDrawTarget::hidden()),
+            "set_style_snapshot" => {
+                if let Some(st) = snapshot_style.take() {
+                    pb.set_style(st);
+                }
+            }
             "iter_exhaust" => {
                 let n = a as usize;
                 let it = pb.wrap_iter(0..n);
@@ -751,6 +775,7 @@ impl Stage {
         }
         // ---- model transition
         let hidden_now = self.bars[b].abs.removed || (self.multi && !self.bars[b].in_mp);
+        let snap_model: Option<(String, String)> = self.bars[b].style_snapshot.as_ref().map(|(_, t, o)| (t.clone(), o.clone()));
         {
             let abs = &mut self.bars[b].abs;
             match k {
@@ -769,6 +794,12 @@ impl Stage {
                     }
                 }
                 "set_tab_width" => abs.tab_width = a as usize,
+                "set_style_snapshot" => {
+                    if let Some((t, o)) = snap_model.clone() {
+                        abs.template = t;
+                        abs.obs_text = o;
+                    }
+                }
                 "reset" => {
                     abs.pos = 0;
                     abs.status = Status::InProgress;
